@@ -130,7 +130,7 @@ def run(prop, tier, verif_seed):
     t0 = time.time()
     repo = B.REPO
     cfgs = QUICK if tier == 'quick' else sorted(CONFIGS)
-    nruns = 6 if tier == 'quick' else 48
+    nruns = 12 if tier == 'quick' else 64
     root = tempfile.mkdtemp(prefix='detcompile-')
     violations = 0
     exit_code = 0
@@ -184,7 +184,7 @@ def run(prop, tier, verif_seed):
                 d = compare(ref, files)
                 if d and exit_code == 0:
                     # minimise the perturbation: which single dimension suffices?
-                    minimal = minimise_perturbation(repo, src, root, c, ref, p)
+                    minimal = minimise_perturbation(repo, src, root, c, ref, p, ref_p)
                     path = write_replay(prop, tier, verif_seed, c, ref_p, minimal, d)
                     print('VIOLATION property=%s replay=%s' % (prop, path))
                     K.log('[%s] config %s: %s line %d differs between two compilations of the same source:\n  %s\n  %s'
@@ -244,10 +244,9 @@ def run(prop, tier, verif_seed):
     return exit_code
 
 
-def minimise_perturbation(repo, src, root, cfg, ref, pert):
+def minimise_perturbation(repo, src, root, cfg, ref, pert, base):
     """Delta-debug the perturbation: reset one dimension at a time to the control's value while the
     outputs still differ."""
-    base = perturbation(0, 0)
     cur = dict(pert)
     n = [0]
     for dim in ('shim', 'tz', 'lang', 'umask', 'cwd_depth', 'hashseed'):
